@@ -138,7 +138,11 @@ func (k Keeper) CheckPermissions(
 	}
 	contracts := state.Contracts
 
-	hasPermission := set.New(contracts...).Has(contract.String()) || contract.String() == state.Root
+	// Compare the root as an address, not as a string: bech32 accepts an all-upper-case
+	// spelling and "MsgChangeRoot.NewRoot" is stored as given.
+	rootAddr, rootErr := sdk.AccAddressFromBech32(state.Root)
+	isRoot := rootErr == nil && rootAddr.Equals(contract)
+	hasPermission := set.New(contracts...).Has(contract.String()) || isRoot
 	if !hasPermission {
 		return fmt.Errorf(
 			"%w: insufficient permissions on smart contract: %s. The sudo contracts are: %s",
